@@ -21,7 +21,7 @@ CONSTANTS
   Ages,            \* metric ages in seconds (degrade time is 1 minute); not part of the state: the
                    \* predicates are evaluated for every age at every state (a stale input makes the rest irrelevant)
   MaxSys, MaxKRes, MaxAnno, MaxApp, MaxReq, MaxUse, MaxDang,
-  Scenarios        \* set of [pods: sequence of pod shapes [prio, qos, phase, metric, numa],
+  Scenarios        \* set of [pods: sequence of pod shapes [prio, qos, phase, term, metric, numa],
                    \*         dang: sequence of dangling-metric priorities, apps: sequence of host-app priorities,
                    \*         zones: sequence of zone capacities]
 
@@ -30,7 +30,7 @@ vars == <<inp>>
 
 RR(v) == [cpu |-> v, mem |-> v]
 
-MkPod(s)  == [prio |-> s.prio, qos |-> s.qos, phase |-> s.phase, metric |-> s.metric, numa |-> s.numa,
+MkPod(s)  == [prio |-> s.prio, qos |-> s.qos, phase |-> s.phase, term |-> s.term, metric |-> s.metric, numa |-> s.numa,
               req |-> RR(0), use |-> RR(0)]
 MkUse(pr) == [prio |-> pr, use |-> RR(0)]
 
@@ -72,7 +72,8 @@ RaiseIsRaise == [][Dominates(inp', inp)]_vars
 Mono == [][MonoOK(BatchImpl(inp), BatchImpl(inp'))]_vars     \* (with a stale metric both sides are withdrawn)
 
 \* ---------------------------------------------------------------- menus
-Shape(pr, q, ph, m, n) == [prio |-> pr, qos |-> q, phase |-> ph, metric |-> m, numa |-> n]
+Shape(pr, q, ph, m, n) == [prio |-> pr, qos |-> q, phase |-> ph, term |-> FALSE, metric |-> m, numa |-> n]
+Terminating(S) == {[s EXCEPT !.term = TRUE] : s \in S}     \* the same pods while they are being deleted
 KindsSmall == {<<"prod", "LS">>, <<"prod", "LSE">>, <<"batch", "BE">>, <<"none", "BE">>}
 KindsAll   == KindsSmall \cup {<<"mid", "LS">>, <<"none", "LS">>, <<"free", "BE">>, <<"mid", "BE">>}
 ShapesOf(kinds, phases, numas) ==
@@ -82,13 +83,21 @@ Scen(P, D, A, Zs) == [pods : P, dang : D, apps : A, zones : Zs]
 ProdLSm == Shape("prod", "LS", "Running", TRUE, <<>>)
 
 \* quick: (A) one pod of a few kinds, no zones; (B) two zones, pods bound / unbound; (C) a dangling metric next to
-\* no pod or an ordinary one; (D) a host application
-ScenQuick ==
+\* no pod or an ordinary one; (D) a host application; (E) pods that are being deleted, without / with zones;
+\* (F) annotation ids that do not exist on the node (alone: the pod is unbound; next to an existing id)
+ScenQuickBase ==
   Scen({<<>>} \cup {<<s>> : s \in ShapesOf(KindsSmall, {"Running", "Succeeded"}, {<<>>})}, {<<>>}, {<<>>}, {<<>>})
   \cup Scen({<<s>> : s \in ShapesOf({<<"prod", "LS">>, <<"prod", "LSE">>}, {"Running"}, {<<>>, <<0>>})
                        \cup {Shape("prod", "LS", "Succeeded", TRUE, <<0>>)}}, {<<>>}, {<<>>}, {<<3, 3>>})
   \cup Scen({<<>>, <<ProdLSm>>}, {<<"prod">>, <<"batch">>}, {<<>>}, {<<>>, <<3, 3>>})
   \cup Scen({<<>>}, {<<>>}, {<<"prod">>, <<"batch">>}, {<<>>})
+
+ScenQuick ==
+  ScenQuickBase
+  \cup Scen({<<s>> : s \in Terminating(ShapesOf({<<"prod", "LS">>, <<"prod", "LSE">>, <<"batch", "BE">>}, {"Running", "Pending"}, {<<>>}))},
+          {<<>>}, {<<>>}, {<<>>})
+  \cup Scen({<<s>> : s \in Terminating(ShapesOf({<<"prod", "LS">>}, {"Running"}, {<<>>, <<0>>}))}, {<<>>}, {<<>>}, {<<3, 3>>})
+  \cup Scen({<<s>> : s \in ShapesOf({<<"prod", "LS">>}, {"Running"}, {<<2>>, <<0, 2>>, <<-1, 1>>, <<5, -1>>})}, {<<>>}, {<<>>}, {<<3, 3>>})
 
 \* thorough (MC_thorough.cfg): every kind / phase alone over 0 and 1 zone (one zone = whole node); kinds bound to
 \* zones of uneven size; dangling metrics and host applications of every priority next to no pod or an ordinary one
